@@ -182,3 +182,72 @@ func ForallKey2[K comparable, V any](m map[K]V, f func(K, K) bool) bool {
 // WellFormed states the type invariant of a slice header (0 <= len <= cap, a nil slice has no capacity). It is true
 // of every Go slice; the verifier needs it spelled out for slices it reaches under a quantifier.
 func WellFormed(b []byte) bool { return len(b) <= cap(b) }
+
+// TraceFind is the index of the first event whose name ends in name, or -1.
+func TraceFind(name string) int { return TraceFindNth(name, 0) }
+
+// TraceFindNth is the index of the n-th (from 0) event whose name ends in name, or -1.
+func TraceFindNth(name string, n int) int {
+	needRecording()
+	for i := range Trace {
+		if TraceIs(i, name) {
+			if n == 0 {
+				return i
+			}
+			n--
+		}
+	}
+	return -1
+}
+
+// TraceCount is the number of events whose name ends in name.
+func TraceCount(name string) int {
+	needRecording()
+	c := 0
+	for i := range Trace {
+		if TraceIs(i, name) {
+			c++
+		}
+	}
+	return c
+}
+
+// TraceRetBytes returns result k of event i as a byte slice.
+func TraceRetBytes(i, k int) []byte {
+	needRecording()
+	if i < 0 || i >= len(Trace) || k >= len(Trace[i].Rets) {
+		return nil
+	}
+	b, _ := Trace[i].Rets[k].([]byte)
+	return b
+}
+
+// TraceRetBool returns result k of event i as a bool.
+func TraceRetBool(i, k int) bool {
+	needRecording()
+	if i < 0 || i >= len(Trace) || k >= len(Trace[i].Rets) {
+		return false
+	}
+	b, _ := Trace[i].Rets[k].(bool)
+	return b
+}
+
+// TraceArg8 returns argument k of event i as a uint8.
+func TraceArg8(i, k int) uint8 {
+	needRecording()
+	if i < 0 || i >= len(Trace) || k >= len(Trace[i].Args) {
+		return 0
+	}
+	b, _ := Trace[i].Args[k].(uint8)
+	return b
+}
+
+// TraceArg32 returns argument k of event i as a uint32.
+func TraceArg32(i, k int) uint32 {
+	needRecording()
+	if i < 0 || i >= len(Trace) || k >= len(Trace[i].Args) {
+		return 0
+	}
+	b, _ := Trace[i].Args[k].(uint32)
+	return b
+}
